@@ -1,5 +1,175 @@
-(* Eval07.v — evaluation of C07 observations (stub: replaced when C07 is built). *)
+(* Eval07.v — evaluation of C07 observations: one goderive run over a package with a given previous
+   state of derived.gen.go, compared with the model of the run (regen fixed p old) and with the
+   property (byte-identical to what the run from scratch leaves, SAME, measured by the harness).
+   By C07_regen_old_independent the model's prediction for any OLD is its prediction for the scratch run.
+
+   line:  (regen PKG OLD REAL SAME)
+     PKG  = (EXPR ...)          EXPR = (var V TY) | (app K N EXPR)     K = keys | sort | set
+     TY   = (base N) | (slice TY) | (map TY TY) | void
+     OLD  = absent | (file ((N TY|invalid) ...)) | unparsable | nopkg
+     REAL = (ok deleted) | (ok (file ((K N TY) ...))) | err
+     SAME = 1 bytes of derived.gen.go equal those of the scratch copy (or both absent / both failed), 0 otherwise *)
 From Verif Require Import Base Sexp.
+From Verif Require Import Regen.Model.
 Open Scope string_scope.
 
-Definition eval07 (e : sexp) : verdict := bad_line.
+Fixpoint ty_of_sexp (fuel : nat) (e : sexp) : option ty :=
+  match fuel with O => None | S f =>
+    match e with
+    | Sym s => if String.eqb s "void" then Some TVoid else None
+    | L [Sym s; Num n] => if String.eqb s "base" then Some (TBase (Z.to_N n)) else None
+    | L [Sym s; a] => if String.eqb s "slice" then option_map TSlice (ty_of_sexp f a) else None
+    | L [Sym s; a; b] =>
+        if String.eqb s "map" then
+          match ty_of_sexp f a, ty_of_sexp f b with
+          | Some k, Some v => Some (TMap k v) | _, _ => None end
+        else None
+    | _ => None
+    end
+  end.
+
+Fixpoint sexp_of_ty (t : ty) : sexp :=
+  match t with
+  | TBase n => L [Sym "base"; Num (Z.of_N n)]
+  | TSlice e => L [Sym "slice"; sexp_of_ty e]
+  | TMap k v => L [Sym "map"; sexp_of_ty k; sexp_of_ty v]
+  | TVoid => Sym "void"
+  end.
+
+Definition kind_of_sexp (e : sexp) : option kind :=
+  match e with
+  | Sym s => if String.eqb s "keys" then Some KKeys else if String.eqb s "sort" then Some KSort
+             else if String.eqb s "set" then Some KSet else None
+  | _ => None
+  end.
+Definition sexp_of_kind (k : kind) : sexp :=
+  match k with KKeys => Sym "keys" | KSort => Sym "sort" | KSet => Sym "set" end.
+
+Fixpoint expr_of_sexp (fuel : nat) (e : sexp) : option expr :=
+  match fuel with O => None | S f =>
+    match e with
+    | L [Sym s; Num v; t] =>
+        if String.eqb s "var" then option_map (Var (Z.to_N v)) (ty_of_sexp 50 t) else None
+    | L [Sym s; k; Num n; a] =>
+        if String.eqb s "app" then
+          match kind_of_sexp k, expr_of_sexp f a with
+          | Some k', Some a' => Some (App k' (Z.to_N n) a') | _, _ => None end
+        else None
+    | _ => None
+    end
+  end.
+
+Definition sig_of_sexp (e : sexp) : option (N * option ty) :=
+  match e with
+  | L [Num n; t] =>
+      if sym_is "invalid" t then Some (Z.to_N n, None)
+      else match ty_of_sexp 50 t with Some t' => Some (Z.to_N n, Some t') | None => None end
+  | _ => None
+  end.
+
+Definition disk_of_sexp (e : sexp) : option disk :=
+  match e with
+  | Sym s => if String.eqb s "absent" then Some Absent
+             else if String.eqb s "unparsable" then Some Unparsable
+             else if String.eqb s "nopkg" then Some NoPackageClause else None
+  | L [Sym s; L l] => if String.eqb s "file" then option_map File (map_opt sig_of_sexp l) else None
+  | _ => None
+  end.
+
+Definition sexp_of_entry (e : entry) : sexp :=
+  L [sexp_of_kind (ek e); Num (Z.of_N (en e)); sexp_of_ty (et e)].
+
+Definition sexp_of_result (r : result) : sexp :=
+  match r with
+  | ROk None _ => L [Sym "ok"; Sym "deleted"]
+  | ROk (Some es) _ => L [Sym "ok"; L [Sym "file"; L (map sexp_of_entry es)]]
+  | RErr _ => Sym "err"
+  end.
+
+Definition result_same (a b : result) : bool := sexp_eqb (sexp_of_result a) (sexp_of_result b).
+
+Definition opt_ty_eqb (a b : option ty) : bool :=
+  match a, b with
+  | Some x, Some y => ty_eqb x y
+  | None, None => true
+  | _, _ => false
+  end.
+
+(* how the previous file relates to the current sources *)
+Definition old_tag (p : package) (d : disk) : string :=
+  match d with
+  | Absent => "old=absent"
+  | Unparsable => "old=unparsable"
+  | NoPackageClause => "old=no-package-clause"
+  | File s =>
+      let cs := calls p in
+      let stale := existsb (fun c => match lookup (cn c) s with
+                                     | Some r => negb (opt_ty_eqb r (ety (App (ck c) (cn c) (ca c))))
+                                     | None => false end) cs in
+      let void := existsb (fun x => match snd x with Some TVoid => true | _ => false end) s in
+      let missing := existsb (fun c => match lookup (cn c) s with Some _ => false | None => true end) cs in
+      if void then "old=file/void-signature"
+      else if stale then "old=file/stale-signature"
+      else if missing then (if is_nil s then "old=file/no-function" else "old=file/some-functions")
+      else "old=file/current"
+  end.
+
+Definition depth_tag (p : package) : string :=
+  match calls p with
+  | [] => "pkg=no-calls"
+  | _ => match max_depth p with
+         | 0 | 1 => "pkg=flat"
+         | 2 => "pkg=nested2"
+         | 3 => "pkg=nested3"
+         | _ => "pkg=nested4+"
+         end
+  end.
+
+Definition outcome_tag (r : result) : string :=
+  match r with
+  | ROk None _ => "deleted"
+  | ROk (Some _) 1 => "file/1pass"
+  | ROk (Some _) 2 => "file/2passes"
+  | ROk (Some _) _ => "file/3+passes"
+  | RErr _ => "error"
+  end.
+
+Definition eval07 (e : sexp) : verdict :=
+  match e with
+  | L [Sym k; L pk; od; real; Num same] =>
+      if String.eqb k "regen" then
+        match map_opt (expr_of_sexp 50) pk, disk_of_sexp od with
+        | Some p, Some old =>
+            let model := regen fixed p old in
+            let pinned := regen legacy p old in
+            {| v_known := true;
+               v_model_ok := sexp_eqb (sexp_of_result model) real;
+               (* the property itself, as measured: the run left byte-for-byte what the scratch copy of the
+                  same sources got (both absent / both refused count as equal) *)
+               v_spec_ok := Z.eqb same 1;
+               v_guard := true;
+               v_model := sexp_of_result model;
+               v_tag := old_tag p old ++ " " ++ depth_tag p ++ " " ++ outcome_tag model ++
+                        (if wf p then "" else " not-wf") ++
+                        (if result_same pinned model then "" else " (pinned code differed)") |}
+        | _, _ => bad_line
+        end
+      else if String.eqb k "regen-pinned" then
+        (* diagnostic mode (VERIF_C07_PINNED=1, against a tree WITHOUT the fixes): validates the [legacy]
+           configuration of the model and the harness's oracle for cut-off files against the pinned code;
+           only the correspondence is judged here *)
+        match map_opt (expr_of_sexp 50) pk, disk_of_sexp od with
+        | Some p, Some old =>
+            let model := regen legacy p old in
+            {| v_known := true;
+               v_model_ok := sexp_eqb (sexp_of_result model) real;
+               v_spec_ok := true;
+               v_guard := true;
+               v_model := sexp_of_result model;
+               v_tag := "pinned: " ++ old_tag p old ++ " " ++ depth_tag p ++ " " ++ outcome_tag model ++
+                        (if Z.eqb same 1 then " =scratch" else " DIFFERS-from-scratch") |}
+        | _, _ => bad_line
+        end
+      else bad_line
+  | _ => bad_line
+  end.
